@@ -51,7 +51,7 @@ def register(S):
             "implies(not sized_list(rest), not sized_list(obj))",
         ]}})
     S.contract(F + "_undumpable", params={"obj": "val", "stream": "joinlist"},
-               ensures={"never_returns": ("False", P_ACC)}, raises={"TypeError": {"props": P_ACC}}, modifies=[])
+               noreturn=True, raises={"TypeError": {"props": P_ACC}}, modifies=[])
     dumper("_dump", "val", raises=ENC_RAISES, extra_ensures=PLAIN_ONLY)
     S.contract(F + "dump", params={"obj": "val"}, result="bytes",
                ensures={"is_enc": ("result == enc(obj)", P_ENC), "returns_only_if_plain": ("plain(obj)", P_ACC)},
